@@ -7,8 +7,8 @@
    container; a value `v` with `val_ok m v` is any Rust value of that shape.  The one side
    condition `msg_pack_sz m v < 2^64` says the size fits the usize the Rust computes it in. *)
 From Coq Require Import NArith ZArith List Bool.
-From Blue Require Import Gen.Const_Wire Wire.Model Wire.ModelMsg Wire.Spec Wire.GenWT.
-From Blue Require Import Wire.ProofsVarint Wire.ProofsCanon Wire.ProofsScalar Wire.ProofsPk Wire.ProofsMsg Wire.ProofsTotal Wire.ProofsExtra Wire.ProofsProj Wire.ProofsTyped Wire.ProofsRec.
+From Blue Require Import Gen.Const_Wire Gen.Shapes_all Wire.Model Wire.ModelMsg Wire.Spec Wire.GenWT.
+From Blue Require Import Wire.ProofsVarint Wire.ProofsCanon Wire.ProofsScalar Wire.ProofsPk Wire.ProofsMsg Wire.ProofsTotal Wire.ProofsExtra Wire.ProofsProj Wire.ProofsTyped Wire.ProofsRec Wire.Instances.
 Import ListNotations.
 Open Scope N_scope.
 
@@ -104,6 +104,27 @@ Proof.
   destruct proj_all as (_ & Hp & _).
   specialize (Hp m m' v' He Hw Hw' Hok Hf [] (Forall_nil _) (fun _ => eq_refl)).
   rewrite app_nil_r, Hb in Hp. exact Hp.
+Qed.
+
+(* ---- the messages this repository declares ---------------------------------------------------
+   Gen.Shapes_all.all_shapes is regenerated by tools/shapes.py from the #[derive(Message)]
+   declarations of /repo on every build (sst's table and log formats among them); every one of
+   them satisfies the side conditions (valid, distinct field numbers at every level), so the
+   theorems above hold of it: round trip with exact size and standard bytes, totality with
+   well-typed results, and reading a newer version of itself *)
+Theorem C15_declared_messages : forall m, In m all_shapes ->
+  msg_wf m = true /\
+  (forall v, val_ok m v = true -> msg_pack_sz m v < W64 ->
+     msg_to_vec m v = Ok (ref_msg m v) /\ len (ref_msg m v) = msg_pack_sz m v /\
+     msg_unpack m (ref_msg m v) = Ok (v, [])) /\
+  (forall buf, bytes_ok buf ->
+     (exists v rest pre, msg_unpack m buf = Ok (v, rest) /\ buf = pre ++ rest /\ val_ok m v = true) \/
+     (exists e, msg_unpack m buf = Err e)) /\
+  (forall m' v', ext_msg m m' = true -> msg_wf m' = true -> val_ok m' v' = true -> msg_pack_sz m' v' < W64 ->
+     msg_unpack m (ref_msg m' v') = Ok (proj_msg m m' v', [])).
+Proof.
+  intros m Hin. split; [apply declared_wf; exact Hin|]. split; [apply declared_roundtrip; exact Hin|].
+  split; [apply declared_unpack_total; exact Hin|apply declared_reads_newer; exact Hin].
 Qed.
 
 (* ---- known class recursive-type-depth (known_findings.txt) ------------------------------------
@@ -268,6 +289,15 @@ Example C15_example_recursive_depth :
   msg_pack_sz (tree_shape 4) (nest 4) = 18 /\
   msg_unpack (tree_shape 3) (ref_msg (tree_shape 4) (nest 4)) = Ok (VL [VL [VL [VL [VL [VL [VL [VZ 1]]; VZ 1]]; VZ 1]]; VZ 1], []).
 Proof. vm_compute. repeat split. Qed.
+
+(* the storage formats are among the declared messages; a concrete SST entry *)
+Example C15_example_declared :
+  In Shapes_sst.shape_KeyValueEntry all_shapes /\ In Shapes_sst.shape_FinalBlock all_shapes /\
+  In Shapes_sst.shape_Header all_shapes /\
+  ref_msg Shapes_sst.shape_KeyValueEntry (VV 0 (VL [VZ 5; VB [104; 105]; VZ 3; VB [1]])) =
+    [66; 11; 8; 5; 18; 2; 104; 105; 24; 3; 34; 1; 1].
+Proof. split; [exact (proj1 (proj2 (proj2 declared_nonempty)))|]. split; [exact (proj1 (proj2 (proj2 (proj2 (proj2 declared_nonempty)))))|].
+  split; [exact (proj2 (proj2 (proj2 (proj2 (proj2 (proj2 (proj2 declared_nonempty)))))))|]. vm_compute. reflexivity. Qed.
 
 (* hostile input that used to panic (F21) is an error now; a float field is wire type 5 (F11) *)
 Example C15_example_hostile :
